@@ -462,8 +462,8 @@ struct PathInfo(std::path::PathBuf, SystemTime, usize);
 
 #[cfg(feature = "with-file-history")]
 impl FileHistory {
-    // New multiline-aware history files start with `#V2\n` and have newlines
-    // and backslashes escaped in them.
+    // New multiline-aware history files start with `#V2\n` and have newlines,
+    // carriage returns and backslashes escaped in them.
     const FILE_VERSION_V2: &'static str = "#V2";
 
     /// Default constructor
@@ -499,7 +499,7 @@ impl FileHistory {
         };
         for entry in self.mem.entries.iter().skip(first_new_entry) {
             let mut bytes = entry.as_bytes();
-            while let Some(i) = memchr::memchr2(b'\\', b'\n', bytes) {
+            while let Some(i) = memchr::memchr3(b'\\', b'\n', b'\r', bytes) {
                 let (head, tail) = bytes.split_at(i);
                 wtr.write_all(head)?;
 
@@ -508,13 +508,17 @@ impl FileHistory {
                     .expect("memchr guarantees i is a valid index");
                 if escapable_byte == b'\n' {
                     wtr.write_all(br"\n")?; // escaped line feed
+                } else if escapable_byte == b'\r' {
+                    // escaped carriage return: a raw one at the end of a line would be
+                    // stripped as part of the line ending when the file is read back
+                    wtr.write_all(br"\r")?;
                 } else {
                     debug_assert_eq!(escapable_byte, b'\\');
                     wtr.write_all(br"\\")?; // escaped backslash
                 }
                 bytes = tail;
             }
-            wtr.write_all(bytes)?; // remaining bytes with no \n or \
+            wtr.write_all(bytes)?; // remaining bytes with no \n, \r or \
             wtr.write_all(b"\n")?;
         }
         // https://github.com/rust-lang/rust/issues/32677#issuecomment-204833485
@@ -561,11 +565,14 @@ impl FileHistory {
                         b'n' => {
                             s.push('\n'); // unescaped line feed
                         }
+                        b'r' => {
+                            s.push('\r'); // unescaped carriage return
+                        }
                         b'\\' => {
                             s.push('\\'); // unescaped back slash
                         }
                         _ => {
-                            // only line feed and back slash should have been escaped
+                            // only line feed, carriage return and back slash should have been escaped
                             warn!(target: "rustyline", "bad escaped line: {}", line);
                             copy = None;
                             break;
